@@ -8,13 +8,14 @@
 //!        A<q>e<e><mode>  after(event e) mode as for F
 //!        U<q> suspend+await (resumer kept)   R resume   r drop the resumer
 //!        E<e> fire event   O<g> open gate   X<q> drop this program's handle of object q
-//! Body:  t touch | w<e> await event (future bodies) | g<g> block on gate | p panic | (op) nested op
+//!        V<e> block until event e   W wait until every started panic has finished unwinding   P<q> every scheduling attempt on q must panic
+//! Body:  t touch | w<e> await event (future bodies) | g<g> block on gate | p panic | s<e> fire event | (op) nested op
 
 #[derive(Clone, Debug, PartialEq)]
 pub enum Mode { Detach, Await, SyncWait, PollDrop(usize) }
 
 #[derive(Clone, Debug, PartialEq)]
-pub enum Prim { Touch, AwaitEv(usize), Gate(usize), Panic, Nested(Box<Op>) }
+pub enum Prim { Touch, AwaitEv(usize), Gate(usize), Panic, Signal(usize), Nested(Box<Op>) }
 
 #[derive(Clone, Debug, PartialEq)]
 pub enum Op {
@@ -30,6 +31,9 @@ pub enum Op {
     Fire(usize),
     Open(usize),
     DropObj(usize),
+    WaitEv(usize),
+    AwaitUnwind,
+    ExpectPanic(usize),
 }
 
 #[derive(Clone, Debug, PartialEq)]
@@ -38,7 +42,7 @@ pub struct Program { pub nq: usize, pub pool: usize, pub nev: usize, pub ngates:
 impl Op {
     pub fn obj(&self) -> Option<usize> {
         match self {
-            Op::Desync(q, _) | Op::Sync(q, _) | Op::TrySync(q, _) | Op::FutDesync(q, _, _) | Op::FutSync(q, _, _) | Op::After(q, _, _) | Op::Suspend(q) | Op::DropObj(q) => Some(*q),
+            Op::Desync(q, _) | Op::Sync(q, _) | Op::TrySync(q, _) | Op::FutDesync(q, _, _) | Op::FutSync(q, _, _) | Op::After(q, _, _) | Op::Suspend(q) | Op::DropObj(q) | Op::ExpectPanic(q) => Some(*q),
             _ => None
         }
     }
@@ -55,6 +59,7 @@ fn fmt_body(b: &Vec<Prim>) -> String {
             Prim::AwaitEv(e) => s.push_str(&format!("w{}", e)),
             Prim::Gate(g) => s.push_str(&format!("g{}", g)),
             Prim::Panic => s.push('p'),
+            Prim::Signal(e) => s.push_str(&format!("s{}", e)),
             Prim::Nested(o) => { s.push('('); s.push_str(&fmt_op(o)); s.push(')'); }
         }
     }
@@ -75,6 +80,9 @@ pub fn fmt_op(o: &Op) -> String {
         Op::Fire(e) => format!("E{}", e),
         Op::Open(g) => format!("O{}", g),
         Op::DropObj(q) => format!("X{}", q),
+        Op::WaitEv(e) => format!("V{}", e),
+        Op::AwaitUnwind => "W".into(),
+        Op::ExpectPanic(q) => format!("P{}", q),
     }
 }
 impl Program {
@@ -133,6 +141,7 @@ fn parse_body(cs: &[char], i: &mut usize) -> Result<Vec<Prim>, String> {
             ']' => break,
             't' => b.push(Prim::Touch),
             'p' => b.push(Prim::Panic),
+            's' => b.push(Prim::Signal(parse_num(cs, i)?)),
             'w' => b.push(Prim::AwaitEv(parse_num(cs, i)?)),
             'g' => b.push(Prim::Gate(parse_num(cs, i)?)),
             '(' => { let o = parse_op(cs, i)?; if *i >= cs.len() || cs[*i] != ')' { return Err(") expected".into()); } *i += 1; b.push(Prim::Nested(Box::new(o))); }
@@ -157,6 +166,9 @@ fn parse_op(cs: &[char], i: &mut usize) -> Result<Op, String> {
         'E' => Op::Fire(parse_num(cs, i)?),
         'O' => Op::Open(parse_num(cs, i)?),
         'X' => Op::DropObj(parse_num(cs, i)?),
+        'V' => Op::WaitEv(parse_num(cs, i)?),
+        'W' => Op::AwaitUnwind,
+        'P' => Op::ExpectPanic(parse_num(cs, i)?),
         _ => return Err(format!("bad op {}", c))
     })
 }
@@ -199,6 +211,44 @@ pub const P_DROP: Profile = Profile { name: "drop", nq: (1, 3), callers: (1, 3),
     w_desync: 5, w_sync: 2, w_try: 1, w_fd: 3, w_fs: 0, w_after: 0, w_suspend: 0, w_drop: 3, nested: 25, awaits: 30, gates: 0, poll_drop: 0 };
 pub const P_GATE: Profile = Profile { name: "gate", nq: (2, 3), callers: (2, 3), ops: (1, 3), pool: (2, 3),
     w_desync: 6, w_sync: 2, w_try: 0, w_fd: 1, w_fs: 0, w_after: 0, w_suspend: 0, w_drop: 0, nested: 0, awaits: 0, gates: 1, poll_drop: 0 };
+
+/// Panic scenarios (C15): object 0 panics in a chosen runner context; afterwards every attempt on it must fail loudly and
+/// the healthy objects 1.. must stay fully usable. Ordering constraints are scripted with events, fine interleaving is left open.
+pub fn generate_panic(r: &mut Rng) -> Program {
+    let ctxk = r.below(5);
+    let pool = 1 + r.below(3);
+    let nq = 3;
+    let mut healthy = |r: &mut Rng, n: usize| -> Vec<Op> {
+        (0..n).map(|_| { let q = 1 + r.below(2); match r.below(4) { 0 => Op::Sync(q, vec![Prim::Touch]), 1 => Op::TrySync(q, vec![Prim::Touch]), 2 => Op::FutDesync(q, vec![Prim::Touch], Mode::Await), _ => Op::Desync(q, vec![Prim::Touch]) } }).collect()
+    };
+    let mut c0: Vec<Op> = vec![];
+    let mut others: Vec<Vec<Op>> = vec![];
+    let (mut nev, mut ngates) = (0, 0);
+    match ctxk {
+        0 => { c0.push(Op::Desync(0, vec![Prim::Touch, Prim::Panic])); }                                  // pool thread
+        1 => { c0.push(Op::Sync(0, vec![Prim::Touch, Prim::Panic])); }                                    // sync caller, immediate
+        2 => { c0.push(Op::FutDesync(0, vec![Prim::Touch, Prim::Panic], Mode::Await)); }                  // polling task or pool thread
+        3 => { c0.push(Op::FutDesync(0, vec![Prim::Touch, Prim::AwaitEv(0), Prim::Panic], Mode::Detach)); c0.push(Op::Fire(0)); nev = 1; }  // after a suspension
+        _ => {
+            // drain / steal: every pool thread is parked on a gate, a sync caller holds object 0 while the panicking job is queued,
+            // a second sync caller arrives after that and is the one that runs it
+            ngates = pool + 1; nev = 3;
+            for g in 0..pool { c0.push(Op::Desync(1, vec![Prim::Touch, Prim::Gate(g)])); }
+            c0.push(Op::WaitEv(1)); c0.push(Op::Desync(0, vec![Prim::Touch, Prim::Panic])); c0.push(Op::Fire(2)); c0.push(Op::Open(pool));
+            others.push(vec![Op::Sync(0, vec![Prim::Touch, Prim::Signal(1), Prim::Gate(pool)])]);
+            others.push(vec![Op::WaitEv(2), Op::Sync(0, vec![Prim::Touch])]);
+        }
+    }
+    c0.push(Op::AwaitUnwind);
+    c0.push(Op::ExpectPanic(0));
+    if ctxk >= 4 { for g in 0..pool { c0.push(Op::Open(g)); } }
+    let n1 = 2 + r.below(3); let h = healthy(r, n1); c0.extend(h);
+    let mut callers = vec![c0];
+    callers.extend(others);
+    let mut hc = vec![Op::AwaitUnwind]; let n2 = 1 + r.below(3); hc.extend(healthy(r, n2));
+    if ctxk < 4 { callers.push(hc); }
+    Program { nq, pool, nev, ngates, callers }
+}
 
 pub fn profile(name: &str) -> Option<Profile> {
     [P_CORE, P_POOL, P_SYNC, P_TRY, P_FUT, P_FSYNC, P_SUSP, P_DROP, P_GATE].into_iter().find(|p| p.name == name)
